@@ -146,7 +146,9 @@ public:
       auto key_str   = UrlDecode(common::StringUtil::Trim(key), err);
       auto value_str = UrlDecode(common::StringUtil::Trim(value), err);
 
-      if (err == false && IsValidKey(key_str) && IsValidValue(value_str))
+      // metadata is carried through verbatim, so it has to be valid as it stands
+      if (err == false && IsValidKey(key_str) && IsValidValue(value_str) &&
+          IsPrintableString(metadata))
       {
         if (!metadata.empty())
         {
